@@ -14,7 +14,7 @@ Definition big_readds (p : big_params) : list pq_op :=
   map (fun i => Add (tk i) (Some (rank_of (bg p) i))) (filter (readded p) (upto (bn p))).
 Definition big_removes (p : big_params) : list pq_op :=
   map (fun i => Remove (tk i)) (filter (removed p) (upto (bn p))).
-Definition big_tail : list pq_op := [Pop (Some 0%nat); Peek (Some 0%nat); Len].
+Definition big_tail : list pq_op := [Pop (Some (DOther 0%nat)); Peek (Some (DOther 0%nat)); Len].
 
 (* npop successful pops are followed by the pop that raises IndexError *)
 Definition big_ops (p : big_params) (npop : nat) : list pq_op :=
